@@ -1308,6 +1308,63 @@ fn x_c08(r: &DuoRun, wm: &WireModel, ei: &EndInfo, o: &mut Outcome) {
         }
     }
 }
+/// the end cause "the keepalive expires": the link goes silent (one or both directions swallow
+/// what is sent, nothing fails), so only the endpoints' own keepalive can end the connection
+fn gen_c08_keepalive(r: &mut Prng, _i: u64, _t: Tier) -> Plan {
+    let mut p = gen_c08_workload(r);
+    p.link.latency_ms = *r.pick(&[0u64, 0, 5]);
+    let both = r.chance(2, 3);
+    let on = r.below(2);
+    for (x, e) in p.eps.iter_mut().enumerate() {
+        if both || x == on {
+            let iv = *r.pick(&[200u64, 500, 1000]);
+            e.keepalive_ms = [iv, iv * *r.pick(&[1u64, 2])];
+        }
+    }
+    let span = *r.pick(&[12usize, 40, 120, 400]);
+    let at = r.below(span) as u64;
+    let drop_inflight = r.chance(1, 2);
+    match r.below(3) {
+        0 => {
+            for from in 0..2 {
+                p.faults.push(Fault { at, kind: FaultKind::Cut { from, sink_err: false, src: 3, drop_inflight } });
+            }
+        }
+        k => p.faults.push(Fault { at, kind: FaultKind::Cut { from: k - 1, sink_err: false, src: 3, drop_inflight } }),
+    }
+    p.horizon_ms = 60_000;
+    p
+}
+fn x_c08_keepalive(r: &DuoRun, wm: &WireModel, ei: &EndInfo, o: &mut Outcome) {
+    // the family's space (the minimiser must not leave it): silent cuts only, keepalive periods
+    // far above the round trip of the link, a timeout not below the interval
+    let lat = r.plan.link.latency_ms.max(1);
+    let in_space = r.plan.faults.iter().all(|f| matches!(f.kind, FaultKind::Cut { sink_err: false, src: 3, .. })) && r.plan.eps.iter().all(|e| e.keepalive_ms == [0, 0] || (e.keepalive_ms[0] >= 20 * lat && e.keepalive_ms[1] >= e.keepalive_ms[0]));
+    if !in_space {
+        o.violations.clear();
+        return;
+    }
+    x_c08(r, wm, ei, o);
+    if !ei.any_fault {
+        return;
+    }
+    let led = r.led.borrow();
+    for x in 0..2 {
+        if r.plan.eps[x].keepalive_ms[0] == 0 {
+            continue;
+        }
+        // its pings or the pongs to them are swallowed from the cut on: the keepalive expires
+        o.probe("silent-link-under-keepalive", 1);
+        match &led.task_end[x] {
+            None => o.violate("C08:not-ended-by-keepalive", format!("endpoint {x} has keepalive on (interval {} ms, timeout {} ms) and the link went silent (seq {:?}), but its connection task never ended", r.plan.eps[x].keepalive_ms[0], r.plan.eps[x].keepalive_ms[1], ei.first_fault_seq)),
+            Some(t) => {
+                if format!("{t:?}").contains("KeepaliveTimeout") {
+                    o.probe("ended-by-keepalive-expiry", 1);
+                }
+            }
+        }
+    }
+}
 fn nt_c08(r: &DuoRun, _wm: &WireModel, ei: &EndInfo) -> bool {
     ei.any_fault && (ei.judged[0] || ei.judged[1]) && r.steps > 20
 }
@@ -1320,8 +1377,9 @@ pub fn c08() -> Check {
             fam("chaos", 300_000, 3_000_000, gen_c08, OracleCfg::default(), Some(x_c08), nt_c08, "random close/abort workload on 1-3 streams with pending accept / get_datagram / request_bind / next_bind_request / open / parked writers and readers; at a seeded scheduling round one end cause fires: forged peer Close, cut of one direction (source error / EOF / silent, sink failing or not, in-flight dropped or delivered), both directions cut, invalid frame (6 kinds), or the local Multiplexor handle dropped. Judged per endpoint whose connection has ended: its task returned and no call is pending at quiescence; after a local drop on a healthy link every frame whose producing call returned before the drop is on the wire before Close, per producer in order. Non-trivial: the end cause fired after >20 steps and reached an endpoint."),
             Box::new(sweep),
             fam("backlog", 100_000, 2_000_000, gen_c08_backlog, OracleCfg::default(), Some(x_c08), nt_c08, "the endpoint whose transport fails (sink error with a live or silent source, invalid frame, source error) runs no acceptor: its accept backlog (1-2 slots) is full and further Connect frames of the peer are in flight or buffered when the failure hits; its parked reader, get_datagram and open calls must still resolve and its task must return."),
+            fam("keepalive-expiry", 40_000, 600_000, gen_c08_keepalive, OracleCfg::default(), Some(x_c08_keepalive), nt_c08, "the chaos workload with keepalive on at one or both endpoints (interval 200-1000 ms, timeout 1-2 intervals) on a link that goes silent at a seeded scheduling round: one or both directions swallow what is sent from then on, no operation of the transport fails. Every endpoint with keepalive on must end (its pings or the pongs to them are lost), and from then on the general clauses apply: its task returned, no call pending at quiescence, reads drain then end, writes fail. Non-trivial as in chaos."),
         ],
-        vec!["late-call-after-end", "end-with-pending-operations", "end-while-writer-parked", "end-while-open-pending", "end-while-bind-pending", "drop-with-queued-frames", "fault:cut", "fault:peer-close", "fault:garbage", "fault:drop-mux"],
+        vec!["late-call-after-end", "end-with-pending-operations", "end-while-writer-parked", "end-while-open-pending", "end-while-bind-pending", "drop-with-queued-frames", "silent-link-under-keepalive", "ended-by-keepalive-expiry", "fault:cut", "fault:peer-close", "fault:garbage", "fault:drop-mux"],
     )
 }
 use crate::link::{Stage, Wire};
